@@ -55,7 +55,7 @@ from .._services import (
     SignalRegistrationInterface,
 )
 from .._updates import RecordUpdateListener
-from .._utils.name import cached_possible_types, service_type_name
+from .._utils.name import cached_possible_types, name_can_be_encoded, service_type_name
 from .._utils.time import current_time_millis, millis_to_seconds
 from ..const import (
     _ADDRESS_RECORD_TYPES,
@@ -263,7 +263,8 @@ def generate_service_query(
         known_answers = {
             record
             for record in cache.get_all_by_details(type_, _TYPE_PTR, _CLASS_IN)
-            if not record.is_stale(now_millis)
+            # a pointer received with a target that cannot be sent back is left out
+            if not record.is_stale(now_millis) and name_can_be_encoded(cast(DNSPointer, record).alias)
         }
         if not qu_question and question_history.suppresses(question, now_millis, known_answers):
             log.debug("Asking %s was suppressed by the question history", question)
